@@ -466,7 +466,7 @@ class Worker(object):
             exc = (None, None)
             ret = 0
 
-        except Exception as e:
+        except (Exception, SystemExit) as e:
             self._log.exception('_call failed: %s', task['uid'])
             val = None
             out = strout.getvalue()
@@ -535,7 +535,7 @@ class Worker(object):
             exc = (None, None)
             ret = 0
 
-        except Exception as e:
+        except (Exception, SystemExit) as e:
             self._log.exception('_eval failed: %s', task['uid'])
             val = None
             out = strout.getvalue()
@@ -604,7 +604,7 @@ class Worker(object):
             exc = (None, None)
             ret = 0
 
-        except Exception as e:
+        except (Exception, SystemExit) as e:
             self._log.exception('_exec failed: %s', task['uid'])
             val = None
             out = strout.getvalue()
